@@ -6,10 +6,12 @@ import (
 	"encoding/json"
 	"fmt"
 	"io"
+	"os"
 	"regexp"
 	"runtime/debug"
 	"sort"
 	"strings"
+	"sync"
 	"testing"
 
 	"github.com/gofiber/fiber/v3"
@@ -58,8 +60,13 @@ func flashCookie(marker string, n int, full bool) []byte {
 }
 
 func c05App(ptrs *[]string) fasthttp.RequestHandler {
+	return c05AppRec(func(c fiber.Ctx) { *ptrs = append(*ptrs, fmt.Sprintf("%p", c)) })
+}
+
+// c05AppRec: rec is told which context object serves each request
+func c05AppRec(rec func(c fiber.Ctx)) fasthttp.RequestHandler {
 	app := fiber.New(fiber.Config{Views: dumpViews{}})
-	mark := func(c fiber.Ctx) string { *ptrs = append(*ptrs, fmt.Sprintf("%p", c)); return c.Get("X-Marker") }
+	mark := func(c fiber.Ctx) string { rec(c); return c.Get("X-Marker") }
 	app.Get("/plain", func(c fiber.Ctx) error { mark(c); return c.SendString("ok") })
 	app.Get("/p/:a/:b", func(c fiber.Ctx) error { mark(c); return c.SendString(c.Params("a") + c.Params("b")) })
 	app.Get("/locals", func(c fiber.Ctx) error { m := mark(c); c.Locals("k", m); return c.SendString("ok") })
@@ -68,7 +75,12 @@ func c05App(ptrs *[]string) fasthttp.RequestHandler {
 	app.Get("/withinput", func(c fiber.Ctx) error { mark(c); return c.Redirect().WithInput().To("/x") })
 	app.Get("/flash", func(c fiber.Ctx) error { mark(c); return c.SendString(fmt.Sprint(len(c.Redirect().Messages()))) })
 	app.Get("/bindquery", func(c fiber.Ctx) error { mark(c); var q c05Q; _ = c.Bind().Query(&q); return c.SendString(q.Name) })
-	app.Get("/bindauto", func(c fiber.Ctx) error { mark(c); var q c05Q; _ = c.Bind().WithAutoHandling().Query(&q); return c.SendString(q.Name) })
+	app.Get("/bindauto", func(c fiber.Ctx) error {
+		mark(c)
+		var q c05Q
+		_ = c.Bind().WithAutoHandling().Query(&q)
+		return c.SendString(q.Name)
+	})
 	app.Get("/resphdr", func(c fiber.Ctx) error {
 		m := mark(c)
 		c.Set("X-Resp", m)
@@ -78,7 +90,7 @@ func c05App(ptrs *[]string) fasthttp.RequestHandler {
 	app.Get("/baseurl", func(c fiber.Ctx) error { mark(c); return c.SendString(c.BaseURL()) })
 	app.Get("/error", func(c fiber.Ctx) error { mark(c); return fiber.NewError(500, "boom "+c.Get("X-Marker")) })
 	probe := func(c fiber.Ctx) error {
-		*ptrs = append(*ptrs, fmt.Sprintf("%p", c))
+		rec(c)
 		var q c05Q
 		berr := c.Bind().Query(&q)
 		vec := map[string]any{"a": c.Params("a"), "b": c.Params("b"), "x": c.Params("x"), "local": fmt.Sprint(c.Locals("k")),
@@ -227,4 +239,77 @@ func TestC05(t *testing.T) {
 		}
 	})
 	o.summary(map[string]any{"cases": n, "probe_served_by_the_context_of_the_preceding_request": nReused, "violations": o.nV})
+}
+
+// TestC05Conc: the same histories, run by several goroutines at once against ONE app (shared context, redirect, binder and
+// parameter-map pools; contexts migrate between goroutines); every probe must still observe what a fresh app shows.
+func TestC05Conc(t *testing.T) {
+	o := newOut(t)
+	defer o.close()
+	baseline := map[string]string{}
+	for _, p := range []string{"plain", "params", "flashpartial", "flashshort", "bindbad"} {
+		var ptrs []string
+		h := c05App(&ptrs)
+		rc := &fasthttp.RequestCtx{}
+		serveWire(rc, h, c05Probe(p))
+		baseline[p] = c05Vector(rc)
+	}
+	type job struct {
+		Hist  []string `json:"hist"`
+		Probe string   `json:"probe"`
+	}
+	var jobs []job
+	readCases(t, "VERIF_CASES", func(line []byte) {
+		var cs job
+		if err := json.Unmarshal(line, &cs); err != nil {
+			t.Fatalf("bad case %v", err)
+		}
+		jobs = append(jobs, cs)
+	})
+	const workers = 8
+	var mu sync.Mutex
+	lastWorker := map[string]string{} // context object -> worker that used it last
+	var nMigrated, nProbes int
+	h := c05AppRec(func(c fiber.Ctx) {
+		p, w := fmt.Sprintf("%p", c), c.Get("X-Worker")
+		mu.Lock()
+		if lw, ok := lastWorker[p]; ok && lw != w {
+			nMigrated++
+		}
+		lastWorker[p] = w
+		mu.Unlock()
+	})
+	rounds := 1
+	if os.Getenv("VERIF_TIER") == "thorough" {
+		rounds = 4
+	}
+	var wg sync.WaitGroup
+	for w := 0; w < workers; w++ {
+		wg.Add(1)
+		go func(w int) {
+			defer wg.Done()
+			rc := &fasthttp.RequestCtx{}
+			tag := fmt.Sprintf("\r\nX-Worker: %d\r\n", w)
+			withWorker := func(raw string) string { return strings.Replace(raw, "\r\n", tag, 1) }
+			for r := 0; r < rounds; r++ {
+				for i := (w + r) % workers; i < len(jobs); i += workers {
+					cs := jobs[i]
+					for k, kind := range cs.Hist {
+						serveWire(rc, h, withWorker(c05Request(kind, fmt.Sprintf("R%d", k+1))))
+					}
+					serveWire(rc, h, withWorker(c05Probe(cs.Probe)))
+					got := c05Vector(rc)
+					mu.Lock()
+					nProbes++
+					mu.Unlock()
+					if got != baseline[cs.Probe] || foreignMarker.MatchString(got) {
+						o.violation(map[string]any{"check": "probe-differs-from-fresh-app-concurrent", "prop": "C05", "history": cs.Hist, "probe": cs.Probe,
+							"expected": baseline[cs.Probe], "observed": got, "worker": w})
+					}
+				}
+			}
+		}(w)
+	}
+	wg.Wait()
+	o.summary(map[string]any{"cases": len(jobs), "probes": nProbes, "workers": workers, "requests_served_by_a_context_last_used_on_another_goroutine": nMigrated, "violations": o.nV})
 }
